@@ -46,6 +46,7 @@ func init() {
 			{ID: "C14.25", Desc: "the memory backend stores a copy of its own of every value", Run: func(c *Ctx) { ruleStoredValueIsFresh(c, "C14.25") }, MinSites: 1},
 			{ID: "C14.26", Desc: "an absent key reports the not-exist error also with update_mtime (the read comes first)", Run: func(c *Ctx) { ruleReadComesFirstInGet(c, "C14.26") }, MinSites: 1},
 			{ID: "C14.27", Desc: "the root handle is opened on the directory created for base directory and application name", Run: func(c *Ctx) { ruleRootIsTheCreatedDirectory(c, "C14.27") }, MinSites: 1},
+			{ID: "C14.28", Desc: "the bytes written to an entry file derive from the value parameter of the writing function", Run: func(c *Ctx) { ruleWrittenBytesAreTheValue(c, "C14.28") }, MinSites: 1},
 		},
 	})
 }
